@@ -80,13 +80,18 @@ func (w *World) pollWatches(ran *simcore.Task) {
 		post := wt.staged[wa.ti]
 		rtxn := w.db.ReadTxn()
 		if wa.kind == "init" {
-			ok, _ := tc.T.Initialized(rtxn)
 			if len(post.Pending) != 0 {
 				w.violate("C19", "init-closed-early", "the Initialized channel of %s was closed during Commit of T%d although initializers %q are still pending", tc.M.Name, wt.id, post.Pending)
 				return
 			}
-			if !ok {
-				w.violate("C19", "init-close-before-visible", "the Initialized channel of %s is closed but a snapshot taken now still shows the table uninitialized", tc.M.Name)
+			// the commit that made the table initialized must be visible by now (a later
+			// transaction may already have registered a new initializer)
+			sn := w.bind(rtxn, "snapshot at Initialized channel close", nil)
+			if sn == nil {
+				return
+			}
+			if wa.ti >= len(sn.states) || sn.states[wa.ti] == nil || sn.states[wa.ti].Idx < post.Idx {
+				w.violate("C19", "init-close-before-visible", "the Initialized channel of %s is closed at %s of T%d's Commit, but a snapshot taken now does not yet contain that commit (still uninitialized)", tc.M.Name, ran.Point(), wt.id)
 				return
 			}
 			w.probe("init-channel-closed-in-commit")
@@ -135,7 +140,15 @@ func (w *World) mustCloseAtCommit(wt *WTxn) bool {
 		why := ""
 		switch {
 		case wa.kind == "init":
-			if len(pre.Pending) > 0 && len(post.Pending) == 0 {
+			// the channel belongs to the initialization round that was open at wa.stIdx: it must be
+			// closed by the first commit after that which leaves no initializer pending
+			first := len(pre.Pending) > 0 && len(post.Pending) == 0
+			for j := wa.stIdx; j <= pre.Idx && first; j++ {
+				if len(tc.M.Chain[j].Pending) == 0 {
+					first = false
+				}
+			}
+			if first {
 				must, why = true, "the table became initialized"
 			}
 		case wa.kind == "iter" || wa.q.Q == QAll || wa.q.Q == QByRevision:
@@ -311,8 +324,13 @@ func (w *World) watcherTask(t *simcore.Task) {
 				w.probe("waiter-woken")
 				now := w.db.ReadTxn()
 				if wa.kind == "init" {
-					if ok, _ := tc.T.Initialized(now); !ok {
-						w.violate("C19", "init-close-before-visible", "a waiter woken by the Initialized channel of %s still reads the table as uninitialized", tc.M.Name)
+					// the table may have been given a new initializer since; the snapshot must agree with the model
+					// (visibility at the instant of the close is checked by pollWatches)
+					sn2 := w.bind(now, "waiter snapshot", nil)
+					if sn2 == nil {
+						return
+					}
+					if wa.ti < len(sn2.states) && sn2.states[wa.ti] != nil && !w.checkInit(now, wa.ti, sn2.states[wa.ti], "waiter woken by the Initialized channel") {
 						return
 					}
 				} else if rev := tc.T.Revision(now); rev <= wa.snapRev {
